@@ -567,32 +567,38 @@ func (sh *SyncHandler) runSync(syncType string, enumSrc func(chan<- blob.SizedRe
 	defer close(intr)
 	go func() { errch <- enumSrc(enumch, intr) }()
 
-	nCopied := 0
-	toCopy := 0
-
 	workch := make(chan blob.SizedRef, 1000)
 	resch := make(chan copyResult, 8)
-FeedWork:
+
+	// Collect the results while feeding: the workers then never wait for
+	// this goroutine, and the feeder can simply block on a full work
+	// buffer instead of abandoning the rest of the enumeration (which
+	// used to leave the enumerator blocked for ever, and made a one-shot
+	// full sync skip everything past the first ~1000 blobs).
+	nCopiedc := make(chan int, 1)
+	go func() {
+		n := 0
+		for res := range resch {
+			if res.err == nil {
+				n++
+			}
+		}
+		nCopiedc <- n
+	}()
+	var workers sync.WaitGroup
+	nWorkers := 0
 	for sb := range enumch {
-		if toCopy < sh.copierPoolSize {
-			go sh.copyWorker(resch, workch)
+		if nWorkers < sh.copierPoolSize {
+			nWorkers++
+			workers.Go(func() { sh.copyWorker(resch, workch) })
 		}
-		select {
-		case workch <- sb:
-			toCopy++
-		default:
-			// Buffer full. Enough for this batch. Will get it later.
-			break FeedWork
-		}
+		sh.setStatusf("Copying blobs")
+		workch <- sb
 	}
 	close(workch)
-	for i := 0; i < toCopy; i++ {
-		sh.setStatusf("Copying blobs")
-		res := <-resch
-		if res.err == nil {
-			nCopied++
-		}
-	}
+	workers.Wait()
+	close(resch)
+	nCopied := <-nCopiedc
 
 	if err := <-errch; err != nil {
 		sh.logf("error enumerating for %v sync: %v", syncType, err)
